@@ -7,6 +7,7 @@
 -/
 import CffVerif.Sched.Simple
 import CffVerif.Sched.LogInv
+import CffVerif.Sched.ReportInv
 
 namespace Sched
 
@@ -110,6 +111,48 @@ example :
                      wiring := { workerChecksCtx := false } }
     ∃ s, run c (init c) [.cancel, .callerSend, .loopEnq, .loopDispatch 0, .workerDecide 0] = some s
       ∧ s.log.getLast? = some (Ev.started 0) ∧ Ev.cancelled ∈ s.log := by
+  decide
+
+
+/-! ### C19 — state reports -/
+
+theorem inv4_run {c : Cfg} (hw : c.wiring = Wiring.std) (hwf : WfCfg c) (acts : List Act) (s : State)
+    (hr : run c (init c) acts = some s) : Inv1 c s ∧ Inv4 c s := by
+  refine run_induct (c := c) (fun s => Inv1 c s ∧ Inv4 c s) ?_ acts _ _ ⟨inv1_init c, inv4_init c⟩ hr
+  intro s a s' hp h
+  exact ⟨inv1_step hw hwf hp.1 h, inv4_step hw hwf hp.1 hp.2 h⟩
+
+/-- Every state report ever emitted satisfies: all fields non-negative;
+    `Pending = Ready + Waiting + executing` with `0 ≤ executing ≤ Concurrency`;
+    `IdleWorkers = Concurrency − executing`; `Concurrency` is the configured limit;
+    `Pending ≤` number of jobs submitted before the report; `Waiting ≤` number of those that
+    name a dependency.  For every DAG, worker count, mode, and every instant the ticker fires. -/
+theorem C19_report_consistent (c : Cfg) (hw : c.wiring = Wiring.std) (hwf : WfCfg c)
+    (acts : List Act) (s : State) (hr : run c (init c) acts = some s) (i : Nat) (st : Report)
+    (hi : s.log[i]? = some (Ev.report st)) :
+    GoodReport c ((s.log.take i).filterMap Ev.sentId).length st :=
+  (inv4_run hw hwf acts s hr).2.reports i st hi
+
+/-- Reports stop when the loop exits … -/
+theorem C19_stop (c : Cfg) (hw : c.wiring = Wiring.std) (hwf : WfCfg c)
+    (acts : List Act) (s : State) (hr : run c (init c) acts = some s) (i k : Nat) (st : Report)
+    (hi : s.log[i]? = some Ev.loopExit) (hk : s.log[k]? = some (Ev.report st)) : k < i :=
+  (inv4_run hw hwf acts s hr).2.stop i k st hi hk
+
+/-- … and `Wait` returns through its finished arm only after the loop has exited
+    (so no report follows a normal completion). -/
+theorem C19_fin_after_exit (c : Cfg) (s s' : State) (h : step c s .callerRetFin = some s') :
+    s.loop.phase = .exited := (inv_callerRetFin h).2.2.1
+
+/-- The executing count is what the gate bounds: without the gate a report with
+    `executing = 2 > N = 1` is reachable (this was defect F1 of the unfixed scheduler). -/
+example :
+    let c : Cfg := { N := 1, coe := false, emit := true, deps := [[], []],
+                     wiring := { gateDispatch := false } }
+    ∃ s, run c (init c)
+      [.callerSend, .loopEnq, .callerSend, .loopEnq, .loopDispatch 0, .workerDecide 0,
+       .workerEnd 0 .ok false, .workerPost 0, .loopDispatch 0, .loopTick] = some s
+      ∧ s.log.getLast? = some (Ev.report { pending := 2, ready := 0, waiting := 0, idle := 0, concurrency := 1 }) := by
   decide
 
 end Sched
